@@ -12,18 +12,27 @@ Open Scope list_scope.
    variant per method whose `sv::msg` names ty, in declaration order, each built from that method's own signature, attribute
    and forwarded attributes; the generics checker visits exactly those methods; used / unused generics and the kept bounds
    follow from what it collected (Props/C15T.v) *)
-Theorem c01_translated_variants_of_one_kind : forall d (ds : list desc) ty gens wc,
+Theorem c01_translated_variants_of_one_kind : forall d (ds : list desc) ty gens wc, Forall wf_desc ds ->
   let sel := filter (of_kind ty) ds in
-  let used := map traversed sel in
-  calls GEN (S (S (S d))) "MsgVariants::new" [VArr (map desc_v ds); kind_v ty; VArr gens; wc_v wc]
+  let used := flat_map traversed sel in
+  calls GEN (S (S (S (S d)))) "MsgVariants::new" [VArr (map desc_v ds); kind_v ty; VArr gens; wc_v wc]
     (CVal (VRec "MsgVariants"
        [("variants", VArr (map variant_of sel)); ("used_generics", VArr used);
         ("unused_generics", VArr (filter (fun g => negb (mem g used)) gens));
         ("where_predicates", VArr (kept_preds used wc)); ("msg_ty", kind_v ty)])).
 Proof. exact translated_msg_variants_new. Qed.
 
+(* one variant (`MsgVariant::new`, translated): named after the method, carrying the method's own fields, attribute and forwarded
+   attributes; for a query its response type is the one written in `resp=` when there is one, else the one the signature
+   returns (C16), and the generics checker traverses exactly the signature and, for a query, that response type (C15) *)
+Theorem c01_translated_one_variant : forall d k resp r fwd ident output other gens used,
+  is_option resp ->
+  calls GEN (S (S d)) "MsgVariant::new" [sig_v ident output other; checker_v gens used; msg_attr_v (k, resp, r); fwd]
+    (CVal (VCon "()" [variant_v k resp r fwd ident output other; checker_v gens (used ++ traversal k resp ident output other)])).
+Proof. exact translated_msg_variant_new. Qed.
+
 Theorem c01_translated_selected_methods : forall ty (ds : list desc) x,
-  In x (filter (of_kind ty) ds) <-> In x ds /\ exists r, d_msg x = Some (ty, r).
+  In x (filter (of_kind ty) ds) <-> In x ds /\ exists resp r, d_msg x = Some (ty, resp, r).
 Proof. exact selected_methods. Qed.
 
 (* ... and from the ITEMS of the impl block / the trait, through three translated parts (`as_variants` + `VariantDesc::new` of
@@ -31,13 +40,13 @@ Proof. exact selected_methods. Qed.
    for EVERY list of items - methods with arbitrary attribute lists, and other items - the message of kind ty has one variant
    per method whose FIRST well-formed `sv::msg(..)` names ty, in declaration order, and no other *)
 Theorem c01_translated_from_items_to_variants : forall d (items : list item) other ty gens wc kind,
-  kind = "ImplItem" \/ kind = "TraitItem" ->
+  kind = "ImplItem" \/ kind = "TraitItem" -> Forall wf_item items ->
   let ds := descs_of items in
   let sel := filter (of_kind ty) ds in
-  let used := map traversed sel in
+  let used := flat_map traversed sel in
   calls ALL (S (S (S (S (S d))))) (if kind =? "ImplItem" then "ItemImpl::as_variants" else "ItemTrait::as_variants")
         [block_v kind items other] (CVal (VArr (map desc_v ds))) /\
-  calls ALL (S (S (S d))) "MsgVariants::new" [VArr (map desc_v ds); kind_v ty; VArr gens; wc_v wc]
+  calls ALL (S (S (S (S d)))) "MsgVariants::new" [VArr (map desc_v ds); kind_v ty; VArr gens; wc_v wc]
     (CVal (VRec "MsgVariants"
        [("variants", VArr (map variant_of sel)); ("used_generics", VArr used);
         ("unused_generics", VArr (filter (fun g => negb (mem g used)) gens));
@@ -52,13 +61,14 @@ Proof. exact selected_of_items. Qed.
 (* non-vacuity: exec, helper, query, exec: the exec message gets the first and the last, in that order *)
 Example c01_translated_variants_example :
   map d_sig (filter (of_kind "Exec")
-    [ {| d_msg := Some ("Exec", VStr ""); d_forward := VStr ""; d_sig := VStr "fn a" |};
+    [ {| d_msg := Some ("Exec", none, VStr ""); d_forward := VStr ""; d_sig := VStr "fn a" |};
       {| d_msg := None; d_forward := VStr ""; d_sig := VStr "fn helper" |};
-      {| d_msg := Some ("Query", VStr ""); d_forward := VStr ""; d_sig := VStr "fn q" |};
-      {| d_msg := Some ("Exec", VStr ""); d_forward := VStr ""; d_sig := VStr "fn b" |} ]) = [VStr "fn a"; VStr "fn b"].
+      {| d_msg := Some ("Query", none, VStr ""); d_forward := VStr ""; d_sig := VStr "fn q" |};
+      {| d_msg := Some ("Exec", none, VStr ""); d_forward := VStr ""; d_sig := VStr "fn b" |} ]) = [VStr "fn a"; VStr "fn b"].
 Proof. vm_compute. reflexivity. Qed.
 
 Print Assumptions c01_translated_variants_of_one_kind.
 Print Assumptions c01_translated_selected_methods.
+Print Assumptions c01_translated_one_variant.
 Print Assumptions c01_translated_from_items_to_variants.
 Print Assumptions c01_translated_selected_from_items.
